@@ -111,6 +111,8 @@ def corr_init(c):
                         want = f"{tok(o.shape)} {tok(o.cond_shape)}"
                 except ValueError:
                     want = "ValueError"
+                except Exception as e:
+                    want = f"{type(e).__name__}"
                 head = f"gnet {kind} {tok(t.shape)} {tok(t.cond_shape)} " + (f"{ud} " if kind == "cinit" else "")
                 lines.append(head + f"{dim} {S.cd_tok(cd)} 2 1")
                 wants.append((want, desc, kind, dim, cd))
@@ -121,7 +123,16 @@ def corr_init(c):
             c.mismatch(f"netgen-generated-{kind}-vs-impl", op=line, model=got, impl=want, transformer=desc, dim=dim, cond_dim=cd)
 
 
-def _real(bij, x, y_in, cond):
+def _real(c, bij, x, y_in, cond, info):
+    """the six values of the real object, or None (recorded as a mismatch) when a real method raises"""
+    try:
+        return _real_values(bij, x, y_in, cond)
+    except Exception as e:  # the implementation rejects an input every method of the model accepts
+        c.mismatch("netgen-impl-raised", error=f"{type(e).__name__}: {str(e)[:200]}", x=list(np.asarray(x)), **info)
+        return None
+
+
+def _real_values(bij, x, y_in, cond):
     yt, ld = bij.transform_and_log_det(x, cond)
     xi, ldi = bij.inverse_and_log_det(y_in, cond)
     return (list(np.asarray(yt)), float(ld), list(np.asarray(xi)), float(ldi),
@@ -150,10 +161,12 @@ def corr_gen(c, tier, rng, light=False):
                                                      nn_activation=S.ACTS[act]), rng, mode, mag=1.5)
             x, y_in = point(dim), point(dim)
             cond = None if cd is None else point(cd, -1.0, 1.0)
-            want = _real(bij, x, y_in, cond)
+            info = dict(kind="maf", dim=dim, cond_dim=cd, width=w, depth=depth, mode=mode, act=act, transformer=desc)
+            want = _real(c, bij, x, y_in, cond, info)
+            if want is None:
+                continue
             head = f"{act} {dim} {S.cd_tok(cd)} {w} {depth} {fs2b(x)} {fs2b(y_in)} {fs2b(cond) if cond is not None else '-'} " + " ".join(toks)
             fields = " ".join(S.maf_layer_fields(bij))
-            info = dict(kind="maf", dim=dim, cond_dim=cd, width=w, depth=depth, mode=mode, act=act, transformer=desc)
             lines += [f"gnet maf {head} {fields}", f"gnet maft {head} {fields}"]
             checks += [("four", want, info), ("two", want, info)]
             c.case(("gnet-maf", dim, cd, w, depth, kind, mode), True,
@@ -170,11 +183,13 @@ def corr_gen(c, tier, rng, light=False):
                                         nn_activation=S.ACTS[act]), rng, mode, mag=1.5)
             x, y_in = point(dim), point(dim)
             cond = None if cd is None else point(cd, -1.0, 1.0)
-            want = _real(cp, x, y_in, cond)
+            info = dict(kind="coupling", untransformed_dim=ud, dim=dim, cond_dim=cd, width=w, depth=depth, mode=mode, act=act, transformer=desc)
+            want = _real(c, cp, x, y_in, cond, info)
+            if want is None:
+                continue
             head = (f"{act} {ud} {dim} {S.cd_tok(cd)} {w} {depth} {fs2b(x)} {fs2b(y_in)} {fs2b(cond) if cond is not None else '-'} "
                     + " ".join(toks))
             fields = " ".join(FL.mlp_fields(cp.conditioner))
-            info = dict(kind="coupling", untransformed_dim=ud, dim=dim, cond_dim=cd, width=w, depth=depth, mode=mode, act=act, transformer=desc)
             lines += [f"gnet coupling {head} {fields}", f"gnet couplingt {head} {fields}"]
             checks += [("four", want, info), ("two", want, info)]
             c.case(("gnet-coupling", ud, dim, cd, w, depth, kind, mode), True)
